@@ -136,6 +136,9 @@ def tag_common_subexpressions(exprs):
     if isinstance(exprs, prim.Expression):
         raise TypeError("exprs should be an iterable of expressions")
 
+    # exprs is traversed twice
+    exprs = list(exprs)
+
     for expr in exprs:
         ucm(expr)
 
